@@ -612,12 +612,19 @@ func exec(line string) (out string) {
 			return "ok n/a"
 		}
 		errs := store.Prewrite(&kvrpcpb.PrewriteRequest{Mutations: []*kvrpcpb.Mutation{{Op: kvrpcpb.Op_Put, Key: k, Value: []byte{0x50}}},
-			PrimaryLock: unhx(l[1]), StartVersion: st, ForUpdateTs: num(l[5]), LockTtl: num(l[4]),
+			PrimaryLock: unhx(l[1]), StartVersion: st, ForUpdateTs: num(l[5]), LockTtl: num(l[4]) / 2,
 			PessimisticActions: []kvrpcpb.PrewriteRequest_PessimisticAction{kvrpcpb.PrewriteRequest_DO_PESSIMISTIC_CHECK}, Context: &kvrpcpb.Context{}})
+		failed := false
 		for _, e := range errs {
 			if _, isC := errors.Cause(e).(*mocktikv.ErrConflict); e != nil && isC {
 				return "FAIL write conflict re-checked over own pessimistic lock"
 			}
+			failed = failed || e != nil
+		}
+		// the prewrite lock inherits what the pessimistic lock had accumulated: the larger ttl (heart-beats) and the larger
+		// min-commit-ts (pushes by readers; kept on the primary's lock only, like the store does for every prewrite) — the request asked for half the ttl and no min-commit-ts
+		if n, ok2 := lockOf(k); !failed && ok2 && n[0] == w[2] && n[3] != "5" && (num(n[4]) < num(l[4]) || (l[1] == w[1] && num(n[7]) < num(l[7]))) {
+			return "FAIL prewrite over own pessimistic lock lost its ttl or min-commit-ts"
 		}
 		return "ok"
 	case w[0] == "pesscommit" && len(w) == 4:
@@ -1298,6 +1305,52 @@ func main() {
 		do("dumpall")
 	}
 	run.Stats["inversion_cases"] = nInv
+	// 1c. directed family: what a pessimistic lock accumulated survives the prewrite over it.  The primary's pessimistic
+	// lock gets its ttl raised by heart-beats and its min-commit-ts pushed by status checks of readers (or carries one from
+	// the lock request); the prewrite then asks for less of both (`ownpessprewrite`: half the ttl, no min-commit-ts), and a
+	// commit at or below the pushed value must be refused.
+	nCarry := 40
+	if run.Thorough() {
+		nCarry = 400
+	}
+	for c := 0; c < nCarry; c++ {
+		newCase(2)
+		base := uint64(10+g.r.Intn(5)) * 10 * phys
+		t := &txn{start: base, forUpdate: base + 10*phys, commit: base + 2*10*phys, finished: map[string]bool{}, locked: map[string]bool{}}
+		k := g.key()
+		k2 := g.key()
+		t.primary = k
+		g.txns = []*txn{t, {start: base + 9*10*phys, primary: k, finished: map[string]bool{}, locked: map[string]bool{}}}
+		g.tsAt = []uint64{t.start, t.forUpdate, t.commit, base + 3*10*phys, base + 6*10*phys}
+		minc := uint64(0)
+		if g.r.Chance(40) {
+			minc = t.forUpdate + 1 + uint64(g.r.Intn(3))
+		}
+		muts := fmt.Sprintf("5:%s:~:0:0", hx(k))
+		if string(k2) != string(k) && g.r.Bool() {
+			muts += fmt.Sprintf(",5:%s:~:0:0", hx(k2))
+		}
+		do(fmt.Sprintf("plock %s %d %d %d %d r %s", hx(k), t.start, t.forUpdate, []uint64{0, 5, 15, 1000}[g.r.Intn(4)], minc, muts))
+		for i, n := 0, g.r.Intn(4); i < n; i++ {
+			switch g.r.Intn(3) {
+			case 0:
+				do(fmt.Sprintf("heartbeat %s %d %d", hx(k), t.start, 10+g.r.Intn(2000)))
+			default: // a reader's status check: pushes min-commit-ts above its start ts while the lock is alive
+				caller := base + uint64(3+g.r.Intn(4))*10*phys + uint64(g.r.Intn(5))
+				do(fmt.Sprintf("status %s %d %d %d 0 %s", hx(k), t.start, caller, t.start+uint64(g.r.Intn(3)), b01(g.r.Chance(20))))
+			}
+		}
+		do("dumpall")
+		do(fmt.Sprintf("ownpessprewrite %s %d", hx(k), t.start))
+		if string(k2) != string(k) {
+			do(fmt.Sprintf("ownpessprewrite %s %d", hx(k2), t.start))
+		}
+		do("dumpall")
+		do(fmt.Sprintf("commit %s %d %d", hx(k), t.start, t.commit+uint64(g.r.Intn(6))*10*phys))
+		do("audit")
+		do("dumpall")
+	}
+	run.Stats["carry_over_cases"] = nCarry
 	phase = "r"
 	// 2. random sequences over the full alphabet
 	for c := 0; c < nRand; c++ {
